@@ -67,6 +67,8 @@ def c17(pid, tier, seed, selftest=False):
     pubs += [{"op": "pub", "id": "ps%d" % k, "kind": "short", "k": 1, "n": k} for k in range(33)]
     for k in range(6 if thorough else 2):
         pubs += [{"op": "pub", "id": "pp%d.%d" % (k, n), "kind": "cs_pattern", "k": k, "n": n} for n in range(120 if thorough else 70)]
+    # large keyrings (look-ups among many entries; keys that are not there)
+    pubs += [{"op": "krbig", "id": "kb%d.%d" % (n, k), "n": n, "k": k} for n in (1, 2, 17, 120, 400) for k in range(4 if thorough else 2)]
     for s in pubs:
         rep.case(json.dumps(s, sort_keys=True), True)
     run_oneshot(rep, pid, "pub", "kr", pubs, tpl, seed, "Trace_Keyring", nproc=4, only_prefixes=["C17_"])
